@@ -290,7 +290,7 @@ static void gen_case(pv_rng_t *g, int k, int maxn, int len)
     }
     /* drain: everything becomes ready, the application finishes, the network empties */
     for(int q = 0; q < n; q++) if( st(q) == NR ) opf("ready %ld", q, 0);
-    for(int round = 0; round < 100000; round++) {
+    for(int round = 0; round < 100000; round++) {          /* phase 1: the application finishes */
         int k2, progress = 0;
         while( (k2 = pick_net(g, 1)) >= 0 ) { opf("rstart %ld", k2, 0); progress = 1; }
         for(int q = 0; q < n; q++) {
@@ -303,9 +303,10 @@ static void gen_case(pv_rng_t *g, int k, int maxn, int len)
             if( R[q].tp.nb_tasks > 0 ) { if( pv_below(g, 2) ) opf("sett %ld %ld", q, 0); else opf("addt %ld %ld", q, -(long)R[q].tp.nb_tasks); progress = 1; }
             if( R[q].tp.nb_pending_actions > 0 ) { if( pv_below(g, 2) ) opf("setpa %ld %ld", q, 0); else opf("addpa %ld %ld", q, -(long)R[q].tp.nb_pending_actions); progress = 1; }
         }
-        if( (k2 = pick_net(g, 0)) >= 0 ) { opf("deliver %ld", k2, 0); progress = 1; }
         if( !progress ) break;
     }
+    printf("#xp\n");                                       /* quiescent (unless a monitor is stuck busy): exploration point */
+    for(int k2; (k2 = pick_net(g, 0)) >= 0; ) opf("deliver %ld", k2, 0);   /* phase 2: the control protocol runs alone */
     opf("dump", 0, 0);
     pv_stat("gen_cases", 1); pv_stat("gen_ranks", n);
 }
